@@ -27,6 +27,7 @@ import (
 	"fmt"
 	"math"
 	"os"
+	"reflect"
 	"sort"
 	"strconv"
 	"testing"
@@ -56,13 +57,14 @@ type c13Op struct {
 	N int    `json:"n"`           // node index
 	W int    `json:"w,omitempty"` // addw: weight, addr: replicas
 	F bool   `json:"f,omitempty"` // (re-)add with a fresh object of the same identity
+	A int    `json:"a,omitempty"` // 1,2: use another Go representation with the SAME repr (string / *Stringer / []byte), if the node's kind has one
 }
 
 type c13Case struct {
 	R     int     `json:"r"`               // <0: NewConsistentHash(); else NewCustomConsistentHash(R, fn)
 	NilFn bool    `json:"nilfn,omitempty"` // custom constructor gets fn == nil instead of Hash
 	Style int     `json:"style"`           // node naming scheme (3 = collision prone)
-	Kinds []int   `json:"kinds"`           // representation per node: 0 string, 1 struct, 2 *Stringer, 3 *struct
+	Kinds []int   `json:"kinds"`           // representation per node: 0 string, 1 struct, 2 *Stringer, 3 *struct, 4 int, 5 struct with a slice field (not comparable), 6 []byte, 7 []string
 	KS    int     `json:"ks"`              // probe key seed
 	NK    int     `json:"nk"`              // number of probe keys
 	Ops   []c13Op `json:"ops"`
@@ -83,6 +85,13 @@ type c13Stringer struct {
 
 func (s *c13Stringer) String() string { return s.addr }
 
+// c13Tagged is a legal node type that is NOT comparable with == (slice field).
+type c13Tagged struct {
+	Addr string
+	ID   int
+	Tags []string
+}
+
 type c13Key struct {
 	S string
 	N int
@@ -93,8 +102,20 @@ var c13Prone = []string{"1", "11", "2", "21", "12", "3", "31", "22"}
 // c13Name: styles 0..2 give names of equal length (no name is another name
 // followed by digits, so "repr+i" strings of different nodes never coincide);
 // style 3 is collision prone on purpose ("n1"+"10" == "n11"+"0").
-func c13Name(style, idx int) string {
-	switch style {
+func c13Name(c c13Case, idx int) string {
+	if idx < len(c.Kinds) && c.Kinds[idx] == 4 { // int node: its repr is the decimal number
+		switch c.Style {
+		case 0:
+			return strconv.Itoa(6379 + idx)
+		case 1:
+			return strconv.Itoa(11 + idx)
+		case 2:
+			return strconv.Itoa(100 + idx)
+		default:
+			return c13Prone[idx%len(c13Prone)]
+		}
+	}
+	switch c.Style {
 	case 0:
 		return "localhost:" + strconv.Itoa(6379+idx)
 	case 1:
@@ -106,29 +127,86 @@ func c13Name(style, idx int) string {
 	}
 }
 
-func c13MakeNode(c c13Case, idx, gen int) any {
-	name := c13Name(c.Style, idx)
-	switch c.Kinds[idx] {
+// c13Alias: string, *Stringer and []byte nodes of one name have the same repr,
+// i.e. they are the same node; alt rotates among them.
+var c13Alias = []int{0, 2, 6}
+
+func c13KindOf(c c13Case, idx, alt int) int {
+	k := c.Kinds[idx]
+	for p, a := range c13Alias {
+		if a == k {
+			return c13Alias[(p+alt)%len(c13Alias)]
+		}
+	}
+	return k
+}
+
+func c13MakeNode(c c13Case, idx, gen, alt int) any {
+	name := c13Name(c, idx)
+	switch c13KindOf(c, idx, alt) {
 	case 0:
 		return name
 	case 1:
 		return c13Struct{Addr: name, ID: idx}
 	case 2:
 		return &c13Stringer{addr: name, idx: idx, gen: gen}
-	default:
+	case 3:
 		return &c13Struct{Addr: name, ID: idx}
+	case 4:
+		n, _ := strconv.Atoi(name)
+		return n
+	case 5:
+		return c13Tagged{Addr: name, ID: idx, Tags: []string{"a", "b"}}
+	case 6:
+		return []byte(name)
+	default:
+		return []string{name, "x"}
 	}
+}
+
+// c13Same: equality of two node values that never panics (interface == panics
+// for uncomparable dynamic types): identity for pointers, value equality otherwise.
+func c13Same(a, b any) bool {
+	if a == nil || b == nil {
+		return a == nil && b == nil
+	}
+	ta, tb := reflect.TypeOf(a), reflect.TypeOf(b)
+	if ta != tb {
+		return false
+	}
+	if ta.Comparable() {
+		return a == b
+	}
+	return reflect.DeepEqual(a, b)
 }
 
 func c13Ident(c c13Case) func(any) int {
 	names := map[string]int{}
 	for i := range c.Kinds {
-		names[c13Name(c.Style, i)] = i
+		names[c13Name(c, i)] = i
 	}
 	return func(x any) int {
 		switch n := x.(type) {
 		case string:
 			if i, ok := names[n]; ok {
+				return i
+			}
+		case int:
+			if i, ok := names[strconv.Itoa(n)]; ok {
+				return i
+			}
+		case []byte:
+			if i, ok := names[string(n)]; ok {
+				return i
+			}
+		case []string:
+			if len(n) == 2 {
+				if i, ok := names[n[0]]; ok {
+					return i
+				}
+			}
+		case c13Tagged:
+			if i, ok := names[n.Addr]; ok && i == n.ID {
 				return i
 			}
 		case c13Struct:
@@ -239,8 +317,19 @@ func c13Inspect(h *ConsistentHash, ident func(any) int, nn int) (counts []int, c
 	h.lock.RLock()
 	defer h.lock.RUnlock()
 	counts = make([]int, nn)
+	c13SelfDup = 0
 	for _, nodes := range h.ring {
 		first := -3
+		if len(nodes) > 1 {
+			seen := map[int]bool{}
+			for _, x := range nodes {
+				id := ident(x)
+				if seen[id] {
+					c13SelfDup++
+				}
+				seen[id] = true
+			}
+		}
 		for _, x := range nodes {
 			id := ident(x)
 			if id < 0 {
@@ -257,6 +346,10 @@ func c13Inspect(h *ConsistentHash, ident func(any) int, nn int) (counts []int, c
 	}
 	return counts, collision, foreign, len(h.keys)
 }
+
+// c13SelfDup: ring positions on which the SAME node sits more than once
+// (written by c13Inspect; single-threaded harness).
+var c13SelfDup int
 
 // c13ForeignPositions is the predicate of the known finding: the number of
 // indices i < replicas whose position Hash(repr(node)+i) is occupied on the
@@ -363,11 +456,14 @@ func c13Interp(c c13Case) (v kit.Verdict) {
 	}
 	excluded := false
 	for i, o := range c.Ops {
-		what := fmt.Sprintf("op %d %s(node %d %q kind %d, %d)", i, o.K, o.N, c13Name(c.Style, o.N), c.Kinds[o.N], o.W)
+		what := fmt.Sprintf("op %d %s(node %d %q kind %d as kind %d, %d)", i, o.K, o.N, c13Name(c, o.N), c.Kinds[o.N], c13KindOf(c, o.N, o.A), o.W)
 		prev := st[o.N]
 		obj := prev.obj
-		if obj == nil || (o.F && o.K != "rm") {
-			obj = c13MakeNode(c, o.N, i)
+		if obj == nil || (o.F && o.K != "rm") || c13KindOf(c, o.N, o.A) != c.Kinds[o.N] {
+			obj = c13MakeNode(c, o.N, i, o.A)
+			if c13KindOf(c, o.N, o.A) != c.Kinds[o.N] {
+				classes["alias-representation"] = true
+			}
 		}
 		if !excluded && prev.present && c13ForeignPositions(h, obj, ident, o.N) > 0 {
 			tainted = true
@@ -441,7 +537,7 @@ func c13Interp(c c13Case) (v kit.Verdict) {
 		for k := range keys {
 			a, b := after[k], before[k]
 			// stability
-			if again[k].idx != a.idx || again[k].obj != a.obj {
+			if again[k].idx != a.idx || !c13Same(again[k].obj, a.obj) {
 				return v.Failf("%s: Get(%v) returned node %d then node %d with unchanged membership", what, keys[k], a.idx, again[k].idx)
 			}
 			// totality
@@ -457,7 +553,7 @@ func c13Interp(c c13Case) (v kit.Verdict) {
 					return v.Failf("%s: Get(%v) returned %v, which is not a currently added node", what, keys[k], a.obj)
 				case !st[a.idx].positive:
 					return v.Failf("%s: Get(%v) returned node %d, which was added with weight 0", what, keys[k], a.idx)
-				case a.obj != st[a.idx].obj:
+				case !c13Same(a.obj, st[a.idx].obj):
 					return v.Failf("%s: Get(%v) returned a replaced object of node %d (%#v), not the one added last (%#v)", what, keys[k], a.idx, a.obj, st[a.idx].obj)
 				}
 			}
@@ -524,6 +620,9 @@ func c13Interp(c c13Case) (v kit.Verdict) {
 					return v.Failf("%s: node %d owns %d virtual nodes, its current setting %+v allows %d..%d (replicas %d)", what, j, counts[j], s.op, s.lo, s.hi, effR)
 				}
 			}
+			if c13SelfDup > 0 {
+				return v.Failf("%s: %d ring positions hold the same node more than once: the node owns fewer distinct positions than its setting gives it virtual nodes", what, c13SelfDup)
+			}
 			if nkeys != total {
 				return v.Failf("%s: %d ring positions in keys, %d virtual nodes on the ring", what, nkeys, total)
 			}
@@ -587,6 +686,9 @@ func c13GenOp(rt *rapid.T, nn, effR int, present []bool) c13Op {
 	if o.K != "rm" {
 		o.F = rapid.Bool().Draw(rt, "f")
 	}
+	if rapid.IntRange(0, 5).Draw(rt, "alias") == 0 {
+		o.A = rapid.IntRange(1, 2).Draw(rt, "a")
+	}
 	return o
 }
 
@@ -606,7 +708,7 @@ func c13Gen(rt *rapid.T) c13Case {
 	c.Style = rapid.SampledFrom([]int{0, 0, 0, 1, 1, 1, 2, 2, 2, 3}).Draw(rt, "style")
 	nn := rapid.SampledFrom([]int{1, 2, 3, 3, 4, 4, 5, 5, 6, 6}).Draw(rt, "nodes")
 	for i := 0; i < nn; i++ {
-		c.Kinds = append(c.Kinds, rapid.IntRange(0, 3).Draw(rt, "kind"))
+		c.Kinds = append(c.Kinds, int(rapid.Uint64().Draw(rt, "kind")%8))
 	}
 	c.KS = rapid.IntRange(0, 1<<20).Draw(rt, "ks")
 	n := rapid.SampledFrom([]int{1, 2, 3, 4, 5, 6, 7, 8, 9, 10, 11, 12, 13, 14, 15, 15}).Draw(rt, "nops")
@@ -627,8 +729,75 @@ func c13Gen(rt *rapid.T) c13Case {
 	return c
 }
 
+// c13HugeGen: rings with more than 2^16 replicas ("every replica/weight
+// setting"): 2..3 nodes are added with weights 100/50/1 (or the equivalent
+// replica counts), then 1..2 removals / re-adds with another weight follow.
+// Same interpreter and oracles as the history rule. Remove is quadratic in the
+// ring size on the unchanged tree (about 1-6 s per removal here), hence the few
+// cases and the separate driver unit lib/hash@huge.
+func c13HugeGen(rt *rapid.T) c13Case {
+	c := c13Case{NK: 300}
+	rs := []int{65537, 65600, 66000, 70000}
+	if kit.Thorough() {
+		rs = append(rs, 100000, 131072, 65536, 65535)
+	}
+	c.R = rapid.SampledFrom(rs).Draw(rt, "r")
+	c.NilFn = rapid.Bool().Draw(rt, "nilfn")
+	c.Style = rapid.IntRange(0, 2).Draw(rt, "style")
+	nn := rapid.IntRange(2, 3).Draw(rt, "nodes")
+	for i := 0; i < nn; i++ {
+		c.Kinds = append(c.Kinds, int(rapid.Uint64().Draw(rt, "kind")%8))
+	}
+	c.KS = rapid.IntRange(0, 1<<20).Draw(rt, "ks")
+	setting := func(n int, full bool) c13Op {
+		o := c13Op{N: n, F: rapid.Bool().Draw(rt, "f")}
+		sel := rapid.IntRange(0, 5).Draw(rt, "sel")
+		if full {
+			sel %= 3
+		}
+		switch sel {
+		case 0:
+			o.K = "add"
+		case 1:
+			o.K, o.W = "addw", 100
+		case 2:
+			o.K, o.W = "addr", c.R+rapid.IntRange(0, 10).Draw(rt, "over")
+		case 3:
+			o.K, o.W = "addw", 50
+		case 4:
+			o.K, o.W = "addw", 1
+		default:
+			o.K, o.W = "addr", c.R/2
+		}
+		return o
+	}
+	for i := 0; i < nn; i++ {
+		c.Ops = append(c.Ops, setting(i, i == 0)) // node 0 always holds all replicas
+	}
+	m := 1 // quick tier: one removal / re-add (each costs seconds on such a ring)
+	if kit.Thorough() {
+		m = rapid.IntRange(1, 2).Draw(rt, "changes")
+	}
+	for i := 0; i < m; i++ {
+		n := 0
+		if i > 0 {
+			n = rapid.IntRange(0, nn-1).Draw(rt, "n")
+		}
+		if rapid.Bool().Draw(rt, "rm") {
+			c.Ops = append(c.Ops, c13Op{K: "rm", N: n})
+		} else {
+			c.Ops = append(c.Ops, setting(n, false))
+		}
+	}
+	return c
+}
+
+func TestVerif_C13_huge(t *testing.T) {
+	kit.Run(t, "C13", "huge-ring", kit.Opts{Quick: 3, Thorough: 32}, c13HugeGen, c13Interp)
+}
+
 func TestVerif_C13_history(t *testing.T) {
-	kit.Run(t, "C13", "history", kit.Opts{Quick: 3000, Thorough: 80000}, c13Gen, c13Interp)
+	kit.Run(t, "C13", "history", kit.Opts{Quick: 3000, Thorough: 64000}, c13Gen, c13Interp)
 }
 
 // ------------------------------------------------------------ balance rule
@@ -705,7 +874,7 @@ func c13BalInterp(c c13Case) (v kit.Verdict) {
 	for i, o := range c.Ops {
 		obj := st[o.N].obj
 		if obj == nil || (o.F && o.K != "rm") {
-			obj = c13MakeNode(c, o.N, i)
+			obj = c13MakeNode(c, o.N, i, 0)
 		}
 		if pan := c13Apply(h, o, obj); pan != "" {
 			return v.Failf("op %d %+v panicked: %s", i, o, pan)
@@ -751,7 +920,7 @@ func c13BalInterp(c c13Case) (v kit.Verdict) {
 		if r.idx < 0 || !st[r.idx].present {
 			return v.Failf("Get(%v) returned (%v, idx %d): not a currently added node", keys[i], r.obj, r.idx)
 		}
-		if r.obj != st[r.idx].obj {
+		if !c13Same(r.obj, st[r.idx].obj) {
 			return v.Failf("Get(%v) returned a replaced object of node %d", keys[i], r.idx)
 		}
 		cnt[r.idx]++
@@ -770,6 +939,20 @@ func c13BalInterp(c c13Case) (v kit.Verdict) {
 		return s
 	}
 	sharesOK, pairs := true, 0
+	// factor of the share claim: "within factor 2 of proportional"; on rings where every
+	// positive node has >= 30000 virtual nodes (relative deviation of a share < 1 %) the
+	// claim is tightened to factor 1.25, still only if the bounds permit it at c13Delta
+	f := 2.0
+	minK := math.Inf(1)
+	for _, s := range st {
+		if s.present && s.k > 0 && s.k < minK {
+			minK = s.k
+		}
+	}
+	if minK >= 30000 {
+		f = 1.25
+		classes["share-factor:1.25"] = true
+	}
 	for i, s := range st {
 		if !s.present {
 			continue
@@ -784,20 +967,20 @@ func c13BalInterp(c c13Case) (v kit.Verdict) {
 		p := s.k / V
 		share := float64(cnt[i]) / K
 		// lower: P(S_i <= l) = P((1-l)G_i - l*G_rest <= 0)
-		if l := p/2 + eps; c13LogTail([]float64{1 - l, -l}, []float64{s.k, V - s.k}) <= thr {
-			if share < p/2 {
-				return v.Failf("node %d holds %.4f of the keys, less than half of its proportional share %.4f;%s", i, share, p, desc())
+		if l := p/f + eps; c13LogTail([]float64{1 - l, -l}, []float64{s.k, V - s.k}) <= thr {
+			if share < p/f {
+				return v.Failf("node %d holds %.4f of the keys, less than 1/%.2f of its proportional share %.4f;%s", i, share, f, p, desc())
 			}
 		} else {
 			sharesOK = false
 			classes["share-low-unasserted"] = true
 		}
 		// upper: P(S_i >= u) = P(-(1-u)G_i + u*G_rest <= 0)
-		if u := 2*p - eps; u >= 1 || V-s.k == 0 {
+		if u := f*p - eps; u >= 1 || V-s.k == 0 {
 			// a share cannot exceed 1: nothing to assert
 		} else if c13LogTail([]float64{-(1 - u), u}, []float64{s.k, V - s.k}) <= thr {
-			if share > 2*p {
-				return v.Failf("node %d holds %.4f of the keys, more than twice its proportional share %.4f;%s", i, share, p, desc())
+			if share > f*p {
+				return v.Failf("node %d holds %.4f of the keys, more than %.2f times its proportional share %.4f;%s", i, share, f, p, desc())
 			}
 		} else {
 			sharesOK = false
@@ -833,11 +1016,21 @@ func c13BalInterp(c c13Case) (v kit.Verdict) {
 func c13BalGen(rt *rapid.T) c13Case {
 	c := c13Case{NK: c13BalKeys}
 	c.R = rapid.IntRange(1500, 4000).Draw(rt, "r")
+	huge := rapid.IntRange(0, 11).Draw(rt, "huge") == 0 // about one case per quick run: more than 2^16 replicas
+	if huge {
+		c.R = rapid.SampledFrom([]int{100000, 131072}).Draw(rt, "hr")
+	}
 	c.NilFn = rapid.Bool().Draw(rt, "nilfn")
 	c.Style = rapid.IntRange(0, 2).Draw(rt, "style")
 	nn := rapid.IntRange(2, 5).Draw(rt, "nodes")
+	if huge {
+		nn = 2
+	}
 	zero := rapid.IntRange(0, 2).Draw(rt, "zero") == 0   // an extra node with weight 0
 	extra := rapid.IntRange(0, 1).Draw(rt, "extra") == 0 // an extra node that is removed again
+	if huge {                                            // a removal costs seconds on such a ring: no prelude, two plain adds
+		zero, extra = false, false
+	}
 	total := nn
 	zi, xi := -1, -1
 	if zero {
@@ -849,7 +1042,7 @@ func c13BalGen(rt *rapid.T) c13Case {
 		total++
 	}
 	for i := 0; i < total; i++ {
-		c.Kinds = append(c.Kinds, rapid.IntRange(0, 3).Draw(rt, "kind"))
+		c.Kinds = append(c.Kinds, int(rapid.Uint64().Draw(rt, "kind")%8))
 	}
 	c.KS = rapid.IntRange(0, 1<<20).Draw(rt, "ks")
 	setting := func(i int, label string) c13Op {
@@ -873,7 +1066,7 @@ func c13BalGen(rt *rapid.T) c13Case {
 		return o
 	}
 	// prelude: earlier settings of some nodes, the extra node
-	for i := 0; i < nn; i++ {
+	for i := 0; i < nn && !huge; i++ {
 		if rapid.Bool().Draw(rt, "pre") {
 			c.Ops = append(c.Ops, setting(i, "pre"))
 		}
